@@ -38,11 +38,21 @@ int main()
   while (std::getline(std::cin, line)) {
     if (line.empty() || line[0] == '#') {continue;}
     auto t = vh::split(line);
+    if (t[0] == "avg2" || t[0] == "var2") {
+      // the other public way to configure the window: one-argument constructor, then setWindowSize(W)
+      t[0] = t[0].substr(0, 3);
+      t.push_back("#setWindowSize");
+    }
+    bool viaSet = !t.empty() && t.back() == "#setWindowSize";
+    if (viaSet) {t.pop_back();}
     if (t[0] == "avg" || t[0] == "var") {
       double prec = vh::rf(t[1]);
       size_t W = vh::ru(t[2]);
-      AvgView a(prec, W);
-      VarView v(prec, W);
+      AvgView a0(prec, W), a1(prec);
+      VarView v0(prec, W), v1(prec);
+      if (viaSet) {a1.setWindowSize(W); v1.setWindowSize(W);}
+      AvgView & a = viaSet ? a1 : a0;
+      VarView & v = viaSet ? v1 : v0;
       std::string sep;
       for (size_t i = 3; i < t.size(); ++i) {
         if (t[i] == "R") {
